@@ -152,6 +152,7 @@ type world struct {
 	mvcc     *mocktikv.MVCCLevelDB
 	cluster  *mocktikv.Cluster
 	storeIDs []uint64
+	tiflash  uint64 // store id of the TiFlash store (0: none)
 	backend  *mocktikv.RPCClient
 	pd       *simPD
 	cache    *locate.RegionCache
@@ -237,7 +238,13 @@ func newWorld(s *simkit.Sim, sc *Scenario, verbose bool) (*world, error) {
 	if stores < 1 {
 		stores = 1
 	}
-	w.storeIDs, _, _, _ = mocktikv.BootstrapWithMultiStores(w.cluster, stores)
+	var regionID uint64
+	w.storeIDs, _, regionID, _ = mocktikv.BootstrapWithMultiStores(w.cluster, stores)
+	if sc.TiFlash {
+		w.tiflash = w.cluster.AllocID()
+		w.cluster.AddStore(w.tiflash, fmt.Sprintf("tiflash%d", w.tiflash), &metapb.StoreLabel{Key: "engine", Value: "tiflash"})
+		w.cluster.AddPeer(regionID, w.tiflash, w.cluster.AllocID())
+	}
 	for _, k := range sc.Splits {
 		w.split([]byte(k), false)
 	}
@@ -363,7 +370,7 @@ func (w *world) moveLeader(region *metapb.Region, leader *metapb.Peer, avoidStor
 	}
 	for k := 1; k < len(region.Peers); k++ {
 		p := region.Peers[(idx+k)%len(region.Peers)]
-		if w.storeUp(p.StoreId) && p.StoreId != avoidStore {
+		if w.storeUp(p.StoreId) && p.StoreId != avoidStore && p.StoreId != w.tiflash {
 			w.cluster.ChangeLeader(region.Id, p.Id)
 			return true
 		}
@@ -389,7 +396,7 @@ func (w *world) applyEvent(i int, ev *Event) {
 		region, leader, _, _ := w.cluster.GetRegionByKey(mocktikv.NewMvccKey([]byte(ev.Key)))
 		if region != nil && len(region.Peers) > 1 && leader != nil {
 			for k := len(region.Peers) - 1; k >= 0; k-- {
-				if p := region.Peers[k]; p.Id != leader.Id {
+				if p := region.Peers[k]; p.Id != leader.Id && p.StoreId != w.tiflash {
 					w.cluster.RemovePeer(region.Id, p.Id)
 					ok = true
 					break
